@@ -358,6 +358,7 @@ func (pf *Portfolio) Check(asserts []*Term, timeoutMs int, wantModel bool) (Verd
 		n := atomic.AddInt64(&pf.nDump, 1)
 		os.WriteFile(fmt.Sprintf("%s/q%05d.smt2", pf.DumpTo, n), []byte(script+"(check-sat)\n"), 0o644)
 	}
+	tq := time.Now()
 	resCh := make(chan result, len(pf.procs))
 	cancel := make(chan struct{})
 	n := 0
@@ -410,6 +411,13 @@ func (pf *Portfolio) Check(asserts []*Term, timeoutMs int, wantModel bool) (Verd
 					}
 				}
 			}
+		}
+	}
+	if os.Getenv("GOSYM_SLOW") != "" && time.Since(tq) > 300*time.Millisecond {
+		fmt.Fprintf(os.Stderr, "SLOW query %.2fs verdict=%v winner=%s size=%d\n", time.Since(tq).Seconds(), final.v, final.who, len(script))
+		if pf.DumpTo != "" {
+			n := atomic.AddInt64(&pf.nDump, 1)
+			os.WriteFile(fmt.Sprintf("%s/slow%05d.smt2", pf.DumpTo, n), []byte(script+"(check-sat)\n"), 0o644)
 		}
 	}
 	switch final.v {
